@@ -542,7 +542,7 @@ def run(s):
             mass_tab = round(rnd.uniform(50, 400), 4)
             cellmass = round(rnd.uniform(50, 400), 3) if (t + t // 3) % 2 == 0 else None
             vr = 1.2 if (t // 9) % 2 == 0 else 1.35
-            sample = 2 + (t // 9) % 2 if (t % 3 == 2 and (t // 3) % 2 == 0) else None
+            sample = (3, 5, 7, 6)[(t // 6) % 4] if (t % 3 == 2 and (t // 3) % 2 == 0) else None        # never a power of two: doubling a decimal is exact, tripling is not
             table = None
             mods = {}
             if use_table:
@@ -564,6 +564,16 @@ def run(s):
                 ntv = rnd.choice([11, 21, 41])
                 pmin = round(lo + 0.1 * (hi - lo), 2)
                 dp = round(0.7 * (hi - lo) / (ntv - 1), 3)
+                if sample:
+                    # the sampling step is a RATIO of two printed decimals: take, in turn, steps whose floating-point quotient falls just below / just above / on
+                    # the integer (0.6 / 0.2 = 2.9999999999999996), all of which request every sample-th row
+                    kind = (t // 6) % 3
+                    for k_ in range(200):
+                        cand = round(dp + 0.001 * k_, 3)
+                        quo = float(str(round(sample * cand, 6))) / float(str(cand))
+                        if (quo < sample, quo > sample, quo == sample)[kind]:
+                            dp = cand
+                            break
                 args = args[:-1] + [str(ntv), "--p-min", str(pmin), "--delta-p", str(dp)]
                 if sample:
                     args += ["--delta-p-sample", str(round(sample * dp, 6))]
